@@ -17,7 +17,7 @@ next line starting with `@`):
   @strip PREFIX                    R11: drop this path prefix in extracted code (e.g. `apint::`)
   @raw                             block: verus text emitted here (spec glue); counted as spec text
   @type ALIAS::NAME [keep-derives] extract a struct / enum definition
-  @const ALIAS::NAME               extract a const item
+  @const ALIAS::NAME [pub] [drop-field=F] extract a const / static item (R13, R14; R13b drops the field initialiser `F: ..`)
   @fn ALIAS::IMPLHEADER::NAME      (IMPLHEADER = normalised impl header, `-` for a free fn,
                                     `trait X` for a default method of trait X)
      @into HEADER                  emit inside `HEADER { .. }` (default: own impl header; R2 when it differs)
@@ -29,7 +29,8 @@ next line starting with `@`):
      @loop N                       block: invariant / decreases for the N-th loop of the body
      @closure N                    block: replacement header `|x: T| -> (r: U) requires .. ensures ..`
      @hint after|before            block: anchor text, a line `@@`, then proof text
-     @subst                        block: pattern, a line `@@`, then replacement  ($1..$9 = holes)   [R9]
+     @subst [optional]             block: pattern, a line `@@`, then replacement  ($1..$9 = holes)   [R9]
+                                   (`optional`: an absent pattern is skipped and logged, not undecided)
      @nobody                       keep signature+contract, drop the body (external_body): listed as TRUSTED
      @split EXPR : V1 V2 ..        diagnosis only: on a failed obligation re-verify once per case `EXPR is Vi`
   @end
@@ -62,6 +63,7 @@ class FnSpec:
         self.closures = {}
         self.hints = []     # (where, anchor, text)
         self.substs = []    # (pattern, replacement)
+        self.optional_substs = set()   # patterns of `@subst optional`
         self.nobody = False
         self.pub = True
         self.split = None
@@ -187,6 +189,10 @@ def parse_unit(path):
         elif d == "@subst":
             a, b, i = block2(i)
             cur.substs.append((a, b))
+            if arg == "optional":
+                # `@subst optional`: a pattern that no longer occurs is skipped (logged) instead of ending the run undecided;
+                # the text then stays as extracted and only the automatic rules apply to it
+                cur.optional_substs.add(a)
         elif d == "@nobody":
             cur.nobody = True
         elif d == "@optional":
@@ -435,6 +441,9 @@ def build_fn(u, fs, log, probe=False):
     body_text = rl.text_of(btoks)
     for pat, rep in fs.substs:
         body_text, n = rules.subst(body_text, pat, rep)
+        if n == 0 and pat in fs.optional_substs:
+            log.append({"rule": "R9-skipped", "fn": fs.path, "pattern": " ".join(pat.split()), "note": "optional pattern absent"})
+            continue
         if n == 0:
             raise Undecided("R9 pattern not found in %s: %s" % (fs.path, pat.strip()[:60]))
         log.append({"rule": "R9", "fn": fs.path, "pattern": " ".join(pat.split()), "replacement": " ".join(rep.split()), "count": n})
@@ -588,20 +597,45 @@ def build_type(u, path, opts, log):
 
 
 def build_const(u, path, log):
+    path, *opts = path.split()
     alias, name = path.split("::", 1)
     src = Source.get(u.files[alias])
     it = src.find_item(("const", "static"), name)
     toks = [t for t in it.toks[it.start:it.end] if t.kind != "doc"]
     text = rl.text_of(toks)
+    # R14: an elided reference lifetime in the TYPE of a const / static is `'static` (Rust reference, "static lifetime
+    # elision"); Verus turns such an item into a function and then wants the lifetime spelled out.
+    m = re.match(r"(\s*(?:pub(?:\s*\([^)]*\))?\s+)?(?:const|static)\s+\w+\s*:)([^=]+)(=.*)$", text, re.S)
+    if m and re.search(r"&(?!\s*')", m.group(2)):
+        ty = re.sub(r"&(?!\s*')\s*", "&'static ", m.group(2))
+        log.append({"rule": "R14", "item": path, "type": m.group(2).strip(), "as": ty.strip()})
+        text = m.group(1) + ty + m.group(3)
+    for o in opts:
+        # R13b `drop-field=F`: the initialiser is a struct literal `T { .., F: EXPR, .. }` of a type that the unit restates
+        # WITHOUT its field F (a function pointer, which Verus cannot type): the field initialiser is removed, everything
+        # else stays the extracted text.  Logged with the dropped text; what F held is then not part of any claim.
+        if o == "pub":
+            # a private const named in the `ensures` of a public exec static must be visible (as `@type .. pub-fields`)
+            if not re.match(r"\s*pub\b", text):
+                text = "pub " + text.lstrip()
+            continue
+        if not o.startswith("drop-field="):
+            raise SystemExit("@const %s: unknown option %s" % (path, o))
+        fld = o.split("=", 1)[1]
+        text2, n = re.subn(r"(?<![\w.])%s\s*:\s*[^,{}]+,?" % re.escape(fld), "", text)
+        if n != 1:
+            raise Undecided("%s: expected exactly one field initialiser `%s: ..` to drop, found %d" % (path, fld, n))
+        log.append({"rule": "R13b", "item": path, "dropped": re.search(r"(?<![\w.])%s\s*:\s*[^,{}]+" % re.escape(fld), text).group(0).strip()})
+        text = text2
     if it.kind == "static":
         # R13: Verus wants an immutable static as `exec static N: T ensures N == E { E }`; the type T and the
         # initialiser E are the extracted tokens, so a changed value in /repo changes the verified text.
-        m = re.match(r"\s*(pub(?:\s*\([^)]*\))?\s+)?static\s+(?!mut\b)(\w+)\s*:\s*([^=]+?)\s*=\s*(.*?)\s*;\s*$", text, re.S)
+        m = re.match(r"\s*(pub(?:\s*\([^)]*\))?\s+)?static\s+(?!mut\b)(\w+)\s*:\s*([^=]+?)\s*=\s*(.*?)\s*;?\s*$", text, re.S)
         if not m:
             raise Undecided("static %s: not of the form `static NAME: T = EXPR;`" % path)
         vis, nm, ty, init = m.group(1) or "", m.group(2), m.group(3), m.group(4)
         log.append({"rule": "R13", "item": path, "type": ty, "init": init})
-        return "%sexec static %s: %s ensures %s == %s { %s }\n" % (vis, nm, ty, nm, init, init)
+        return "%sexec static %s: %s ensures %s == (%s) { %s }\n" % (vis, nm, ty, nm, init, init)
     return text + "\n"
 
 
